@@ -236,6 +236,12 @@ def base_queries(tier, rnd):
     tris = [(SW, ["or", SX[0], J[3]], XW), (XW, ["or", SX[0], SY[0]], YW), (J[0], YW, SW), (SW, J[3], ["or", XW, SY[0]])]
     if tier == "quick":
         sels3, tris = sels3[:2], tris[:2]
+    # a bare variable as comparison operand in both alternatives of a disjunction over three variables (each comparison gets
+    # mirrored by the rewrites)
+    YR = ["cmp", "eq", ["v", "y"], ["ra", "x"]]
+    for c in (["or", ["and", SW, YR], ["and", YR, SX[0]]], ["or", ["and", SW, YR], ["cmp", "ne", ["v", "y"], ["ra", "x"]]],
+              ["or", ["and", YR, SW], ["and", SX[0], YR]], ["and", ["or", SW, YR], ["or", YR, SX[0]]]):
+        out.append(dict(THREE, select=[["v", "w"], ["v", "x"], ["v", "y"]], cond=c))
     for sel in sels3:
         for tri in tris:
             out.append(dict(THREE, select=sel, cond=["and"] + list(tri)))
